@@ -18,7 +18,6 @@ import (
 	"io"
 	"io/fs"
 	stdslog "log/slog"
-	"net/http"
 	"net/http/httptest"
 	"os"
 	"path/filepath"
@@ -134,22 +133,50 @@ func TestVerifC12(t *testing.T) {
 	nsteps := 0
 	var limit int64
 	var uploadPrefix string
+	// One storage root and one handler chain for the whole run (the FS buckets
+	// keep no state in memory); the upload bucket is emptied between behaviours.
+	// $C12_TMP (a tmpfs directory owned by the driver, when there is one) keeps
+	// the thousands of small file operations cheap.
+	parent, err := os.MkdirTemp(os.Getenv("C12_TMP"), "c12-")
+	if err != nil {
+		t.Fatal(err)
+	}
+	defer os.RemoveAll(parent)
+	root := filepath.Join(parent, "root")
+	os.MkdirAll(root, 0777)
+	os.WriteFile(filepath.Join(parent, "sentinel"), []byte("outside the storage root"), 0666)
+	os.WriteFile(filepath.Join(root, "sentinel"), []byte("inside the root, outside every bucket"), 0666)
+	cfg := config.NewConfig()
+	cfg.LocalStorage = root
+	cfg.ProjectID = ""
+	cfg.UploadConfig = cfgfile
+	limit = cfg.MaxRequestBytes
+	uploadPrefix = "root/" + cfg.UploadBucket + "/"
+	handler := newHandler(ctx, cfg)
+	os.WriteFile(filepath.Join(root, cfg.MergedBucket, "sentinel.json"), []byte("in another bucket"), 0666)
+	pristine := c12Snapshot(parent)
+	dirty := false
 	for _, bh := range in.Behaviours {
-		parent, err := os.MkdirTemp("", "c12-")
-		if err != nil {
-			t.Fatal(err)
+		// back to the pristine tree: empty upload bucket, nothing else touched
+		ents, _ := os.ReadDir(filepath.Join(root, cfg.UploadBucket))
+		for _, e := range ents {
+			os.RemoveAll(filepath.Join(root, cfg.UploadBucket, e.Name()))
 		}
-		root := filepath.Join(parent, "root")
-		os.MkdirAll(root, 0777)
-		os.WriteFile(filepath.Join(parent, "sentinel"), []byte("outside the storage root"), 0666)
-		os.WriteFile(filepath.Join(root, "sentinel"), []byte("inside the root, outside every bucket"), 0666)
-		cfg := config.NewConfig()
-		cfg.LocalStorage = root
-		cfg.ProjectID = ""
-		cfg.UploadConfig = cfgfile
-		limit = cfg.MaxRequestBytes
-		uploadPrefix = "root/" + cfg.UploadBucket + "/"
-		handler := newHandler(ctx, cfg)
+		if dirty {
+			// something outside the bucket was left behind by an earlier behaviour
+			// (already reported there); rebuild the tree
+			now := c12Snapshot(parent)
+			for p := range now {
+				if _, ok := pristine[p]; !ok {
+					os.Remove(filepath.Join(parent, filepath.FromSlash(p)))
+				}
+			}
+			for p, d := range pristine {
+				os.MkdirAll(filepath.Dir(filepath.Join(parent, filepath.FromSlash(p))), 0777)
+				os.WriteFile(filepath.Join(parent, filepath.FromSlash(p)), d, 0666)
+			}
+			dirty = false
+		}
 		after := c12Snapshot(parent)
 		for i, st := range bh.Steps {
 			nsteps++
@@ -203,7 +230,7 @@ func TestVerifC12(t *testing.T) {
 			}
 			out["resp"] = resp
 			after = c12Snapshot(parent)
-			var created, changed, removed []string
+			created, changed, removed := []string{}, []string{}, []string{}
 			for p, d := range after {
 				if o, ok := before[p]; !ok {
 					created = append(created, p)
@@ -220,9 +247,14 @@ func TestVerifC12(t *testing.T) {
 			sort.Strings(changed)
 			sort.Strings(removed)
 			out["created"], out["changed"], out["removed"] = created, changed, removed
+			for _, p := range append(append(append([]string{}, created...), changed...), removed...) {
+				if !strings.HasPrefix(p, uploadPrefix) {
+					dirty = true
+				}
+			}
 			// what was stored: decode with the independent mirror and compare with the
 			// same decoding of the request body (first JSON value)
-			var stored []rt.M
+			stored := []rt.M{}
 			for _, p := range append(append([]string{}, created...), changed...) {
 				if !strings.HasPrefix(p, uploadPrefix) {
 					continue
@@ -254,7 +286,7 @@ func TestVerifC12(t *testing.T) {
 				stored = append(stored, s)
 			}
 			out["stored"] = stored
-			var listing []string
+			listing := []string{}
 			for p := range after {
 				if strings.HasPrefix(p, uploadPrefix) {
 					listing = append(listing, p)
@@ -286,7 +318,6 @@ func TestVerifC12(t *testing.T) {
 			out["matches"] = matches
 			rt.Out(out)
 		}
-		os.RemoveAll(parent)
 	}
 	rt.Out(rt.M{"kind": "summary", "steps": nsteps, "limit": limit, "upload_prefix": uploadPrefix})
 }
